@@ -32,9 +32,57 @@ def norm_sig(s):
     return s.replace('Generic("Tuple", [', "Tuple([").replace("node: Unit,", 'node: Simple("None"),')
 
 
+def ladders(tier):
+    """Nesting ladders: every block kind (and a rotating mix, also inside a class method) nested 1..D deep, and expression
+    nests; the enumeration above never nests deeper than 3."""
+    D = 40 if tier == "thorough" else 14
+    heads = {
+        "if": "if a:",
+        "else": "if a:\n{I}    pass\n{I}else:",
+        "elif": "if a:\n{I}    pass\n{I}elif b:",
+        "for": "for i in xs:",
+        "while": "while a:",
+        "match": "match a:\n{I}    case 1:",
+    }
+    out = []
+
+    def block(kinds, d, base_indent):
+        lines = []
+        ind = base_indent
+        for k in range(d):
+            h = heads[kinds[k % len(kinds)]]
+            extra = 2 if kinds[k % len(kinds)] == "match" else 1
+            hl = h.replace("{I}", "    " * ind).split("\n")
+            lines.append("    " * ind + hl[0])
+            lines += hl[1:]
+            ind += extra
+        lines.append("    " * ind + "x = 1")
+        return "\n".join(lines) + "\n"
+
+    for d in range(1, D + 1):
+        for name in heads:
+            out.append(gen.Case((f"ladder:{name}", f"depth:{d}"), "def f() -> None:\n" + block([name], d, 1), 2))
+        mix = ["for", "if", "while", "match", "else", "elif"]
+        out.append(gen.Case(("ladder:mixed", f"depth:{d}"), "def f() -> None:\n" + block(mix, d, 1), 2))
+        out.append(gen.Case(("ladder:mixed_in_method", f"depth:{d}"), "class C:\n    v: int\n\n    def m(mut self) -> None:\n" + block(mix, d, 2), 2))
+        w = lambda e: f"def f() -> None:\n    x = {e}\n"
+        out.append(gen.Case(("ladder:parens", f"depth:{d}"), w("(" * d + "1" + ")" * d), 2))
+        out.append(gen.Case(("ladder:list", f"depth:{d}"), w("[" * d + "1" + "]" * d), 2))
+        out.append(gen.Case(("ladder:call", f"depth:{d}"), w("g(" * d + "1" + ")" * d), 2))
+        out.append(gen.Case(("ladder:binary_left", f"depth:{d}"), w("1" + " - 1" * d), 2))
+        out.append(gen.Case(("ladder:binary_right_parens", f"depth:{d}"), w("1 - (" * d + "1" + ")" * d), 2))
+        out.append(gen.Case(("ladder:unary", f"depth:{d}"), w("-" * d + "1"), 2))
+        out.append(gen.Case(("ladder:not", f"depth:{d}"), w("not " * d + "a"), 2))
+        out.append(gen.Case(("ladder:closure", f"depth:{d}"), w("".join(f"(p{k}) => " for k in range(d)) + "1"), 2))
+        out.append(gen.Case(("ladder:type", f"depth:{d}"), f"def f(a: {'List[' * d}int{']' * d}) -> None:\n    pass\n", 2))
+        out.append(gen.Case(("ladder:field_chain", f"depth:{d}"), w("a" + ".b" * d), 2))
+        out.append(gen.Case(("ladder:index_chain", f"depth:{d}"), w("a" + "[0]" * d), 2))
+    return out
+
+
 def collect(tier):
     level = 3 if tier == "thorough" else 2
-    cases = list(gen.enumerate_cases(level))
+    cases = list(gen.enumerate_cases(level)) + ladders(tier)
     # repository sources as additional base programs
     for f in corpus.files():
         try:
@@ -65,7 +113,7 @@ def classify_c09(r):
     if r.get("crashed") or not r.get("parses") or r.get("fmt") != "ok":
         return None  # C08's business / outside the domain
     if not r.get("reparses"):
-        return None  # only cases whose first format re-parses take part in the idempotence claim
+        return "second-format-impossible"  # the formatter cannot format its own output (C08 reports the same case as output-does-not-parse)
     if r.get("idempotent") is False:
         return "not-idempotent"
     if r.get("idempotent") is None:
